@@ -80,6 +80,10 @@ def proxyCompress {β} (ops : BodyOps β) (minLength : Nat) (reqHdr : Hdr) (r : 
   else { r with hdr := ((r.hdr.del keyCL).set keyCE "gzip").add keyVary keyCE, cl := -1,
                 payload := r.payload.map ops.gz }
 
+/-- The `bool` `compress` returns: it rewrote the response. -/
+def compressDid {β} (minLength : Nat) (reqHdr : Hdr) (r : Resp β) : Bool :=
+  acceptGzip reqHdr && !alreadyGzipped r.hdr && !(r.cl != -1 && decide (r.cl < (minLength : Int)))
+
 /-- The unrepaired `compress` left `resp.ContentLength` untouched. -/
 def proxyCompressOld {β} (ops : BodyOps β) (minLength : Nat) (reqHdr : Hdr) (r : Resp β) : Resp β :=
   { proxyCompress ops minLength reqHdr r with cl := r.cl }
@@ -196,7 +200,7 @@ structure ReqMsg (β : Type) where
 deriving Repr, DecidableEq
 
 /-- `RequestAdaptor.Handle`: body, `processCompress`, `processDecompress`
-(method / path / host / header adaption not modelled). `none` = a failure result. -/
+(the `header:` section and the request line are `reqAdaptorFull` / `adaptReqLine` below). `none` = a failure result. -/
 def reqAdaptorHandle {β} (ops : BodyOps β) (a : AdSpec) (m : ReqMsg β) : Option (ReqMsg β) :=
   let m1 : ReqMsg β := if a.body.isEmpty then m else ⟨m.hdr.del keyCE, .bytes (ops.ofStr a.body)⟩
   let m2 : ReqMsg β :=
@@ -208,5 +212,80 @@ def reqAdaptorHandle {β} (ops : BodyOps β) (a : AdSpec) (m : ReqMsg β) : Opti
     | none => none
     | some d => some ⟨m2.hdr.del keyCE, m2.payload.map (fun _ => d)⟩
   else some m2
+
+/-! ### RequestAdaptor: method / path / host / header -/
+
+/-- `pathadaptor.Spec`; `re` = (id of the compiled regexp, replacement). -/
+structure PathAd where
+  replace : String := ""
+  addPrefix : String := ""
+  trimPrefix : String := ""
+  re : Option (Nat × String) := none
+deriving Repr, DecidableEq
+
+/-- `strings.TrimPrefix`. -/
+def trimPrefixS (s p : String) : String :=
+  if p.toList.isPrefixOf s.toList then String.ofList (s.toList.drop p.toList.length) else s
+
+/-- `PathAdaptor.Adapt`; `σ id path repl` is `regexp.ReplaceAllString` (oracle). -/
+def PathAd.adapt (σ : Nat → String → String → String) (pa : PathAd) (path : String) : String :=
+  if pa.replace != "" then pa.replace
+  else if pa.addPrefix != "" then pa.addPrefix ++ path
+  else if pa.trimPrefix != "" then trimPrefixS path pa.trimPrefix
+  else match pa.re with
+    | some (id, repl) => σ id path repl
+    | none => path
+
+/-- The part of `requestadaptor.Spec` that edits the request line and the Host. -/
+structure ReqLineAd where
+  method : String := ""
+  host : String := ""
+  path : Option PathAd := none
+deriving Repr, DecidableEq
+
+/-- The request as the filters see it: method, decoded path (`URL.Path`), its escaped form
+(`URL.EscapedPath()`), Host. -/
+structure ReqLine where
+  method : String
+  path : String
+  escapedPath : String
+  host : String
+deriving Repr, DecidableEq
+
+/-- `RequestAdaptor.Handle`, request-line part. `esc p` is net/url's default encoding of a path
+(oracle): after `SetPath(p)` with `p ≠` the old path the stale `RawPath` no longer decodes to `Path`, so
+`EscapedPath()` falls back to it; an unchanged path keeps its original escaped form. -/
+def adaptReqLine (σ : Nat → String → String → String) (esc : String → String) (a : ReqLineAd) (q : ReqLine) : ReqLine :=
+  let method := if a.method != "" && a.method != q.method then a.method else q.method
+  let path := match a.path with
+    | some pa => pa.adapt σ q.path
+    | none => q.path
+  let escapedPath := if path == q.path then q.escapedPath else esc path
+  let host := if a.host != "" then a.host else q.host
+  ⟨method, path, escapedPath, host⟩
+
+/-- `RequestAdaptor.Handle`, message part: `header:` section first, then body / compress / decompress
+(`reqAdaptorHandle`). -/
+def reqAdaptorFull {β} (ops : BodyOps β) (a : AdSpec) (m : ReqMsg β) : Option (ReqMsg β) :=
+  reqAdaptorHandle ops a ⟨adaptHeader a m.hdr, m.payload⟩
+
+/-! ### `RequestAdaptor.Handle` step by step (the shape the regenerated tie `Gen/FactsC03IR.handleReqAdIR` has) -/
+
+/-- `h.Del/Set/Add` canonicalise their key: the spec with every key canonicalised. -/
+def AdSpec.canonKeys (canon : String → String) (a : AdSpec) : AdSpec :=
+  { a with hdel := a.hdel.map canon, hset := a.hset.map (fun kv => (canon kv.1, kv.2)),
+           hadd := a.hadd.map (fun kv => (canon kv.1, kv.2)) }
+
+/-- `RequestAdaptor.processCompress`: (request afterwards, result string). -/
+def reqCompressR {β} (ops : BodyOps β) (m : ReqMsg β) : ReqMsg β × String :=
+  if (m.hdr.get keyCE).head?.getD "" == "" then (⟨m.hdr.set keyCE "gzip", m.payload.map ops.gz⟩, "") else (m, "")
+
+/-- `RequestAdaptor.processDecompress` (spec.Decompress = "gzip"): (request afterwards, result string). -/
+def reqDecompressR {β} (ops : BodyOps β) (m : ReqMsg β) : ReqMsg β × String :=
+  if (m.hdr.get keyCE).head? == some "gzip" then
+    match ops.ungz m.payload.content with
+    | none => (m, "decompressFailed")
+    | some d => (⟨m.hdr.del keyCE, m.payload.map (fun _ => d)⟩, "")
+  else (m, "")
 
 end EgVerif.Proxy
